@@ -906,6 +906,12 @@ class Constraints:
     def lax_multiple_of(cls, value, of: int):
         mod = value % of
         if mod:
+            if isinstance(value, float):
+                # binary floats drift: (1.0 // 0.1) * 0.1 == 0.9, and the next pass gives 0.8 ...
+                # floor to the multiple of the decimal text instead, which is a fixed point
+                step = Decimal(str(of))
+                multiple = (Decimal(str(value)) / step).to_integral_value(rounding="ROUND_FLOOR") * step
+                return type(value)(multiple)
             return (value // of) * of
         return value
 
